@@ -173,12 +173,18 @@ def size_case(ctx, size):
     ks = env.sym(seed, 'c5.K1')
     pub = refed.public_key(ks)
     head = committed_script(size % 256)
-    if size < len(head) + 3:
+    want_log = [bytes([size % 256])]
+    if size <= 3:
+        # the smallest committed scripts there are (no recorder call fits)
+        s = {1: op('TRUE'), 2: op('PUSH0') + b'\xff', 3: op('TRUE') + op('NOT') + op('NOT')}[size]
+        want_log = []
+    elif size < len(head) + 3:
         return
-    pad = size - len(head) - 4 if size - len(head) - 4 >= 256 else size - len(head) - 3
-    # head + PUSH(pad bytes) + POP0 has exactly `size` bytes
-    filler = (b'\x04' + pad.to_bytes(2, 'big') if pad >= 256 else b'\x03' + bytes([pad])) + b'\x5a' * pad + op('POP0')
-    s = head[:-1] + filler + op('TRUE')
+    else:
+        pad = size - len(head) - 4 if size - len(head) - 4 >= 256 else size - len(head) - 3
+        # head + PUSH(pad bytes) + POP0 has exactly `size` bytes
+        filler = (b'\x04' + pad.to_bytes(2, 'big') if pad >= 256 else b'\x03' + bytes([pad])) + b'\x5a' * pad + op('POP0')
+        s = head[:-1] + filler + op('TRUE')
     if len(s) != size:
         return
     ctx.state(('size', size))
@@ -202,7 +208,7 @@ def size_case(ctx, size):
             v = e
         ctx.ran()
         ctx.trans(3)
-        if v is not True or rec.log != [bytes([size % 256])]:
+        if v is not True or rec.log != want_log:
             ctx.violation({'clause': 'script-spend witness made by the builder unlocks its lock', 'lock': name},
                           f'committed script of {size} bytes: {v!r} {rec.log}')
 
@@ -438,7 +444,7 @@ def blocks(tier, seed):
     return [
         Block('A_root_identity_and_builders', list(range(nk)), root_case,
               'seeds x scripts covering all 32 clamp-bit patterns: lock bytes, script-spend witness, non-native', nshards=nk),
-        Block('A_committed_script_sizes', [40, 100, 127, 128, 129, 254, 255, 256, 257, 258, 511, 512, 1000, 1023, 1024, 1500], size_case,
+        Block('A_committed_script_sizes', [1, 2, 3, 40, 100, 127, 128, 129, 254, 255, 256, 257, 258, 511, 512, 1000, 1023, 1024, 1500], size_case,
               'committed script lengths on both sides of 2^7, 2^8, 2^9, 2^10', nshards=16),
         Block('B_key_path', keycases, key_case, 'all flag values x allowed masks {00, ff, flag, ~flag, flag minus each one of its bits} x sigfield sets; all signature / root bit flips',
               nshards=len(keycases)),
